@@ -144,6 +144,13 @@ def rule_boundary_and_apply(ctx):
     if a and a[0] == "fn" and a[1] == "concatenate" and isinstance(a[2][0], TupleV) and len(a[2][0].items) == 2:
         o, z = (x.single_atom() if isinstance(x, Form) else None for x in a[2][0].items)
         ok_y0 = bool(o and z and o[1] == "ones" and z[1] == "zeros" and o[2][0] == n and z[2][0] == n)
+    elif a and a[0] == "fn" and a[1] == "setitem" and len(a[2]) == 3:
+        # zeros(2N) with the first N entries set to 1: the same initial state, allocated once
+        b0, ix, v1 = a[2]
+        ba = b0.single_atom() if isinstance(b0, Form) else None
+        ok_y0 = bool(ba and ba[0] == "fn" and ba[1] == "zeros" and ba[2] and ba[2][0] == 2 * n and isinstance(ix, SliceV)
+                     and (isinstance(ix.lo, Const) and ix.lo.v is None or (isinstance(ix.lo, Form) and ix.lo.is_zero())) and ix.hi == n
+                     and isinstance(ix.step, Const) and ix.step.v is None and isinstance(v1, Form) and v1 == Form.num(1))
     ctx.check("C16.1", ok_y0, fi, r.node, f"FBG: y0 = {y0!r}"[:200], "R(+1/2)=1, S(+1/2)=0 for every frequency", "initial state is not [ones(N), zeros(N)]: the reflection boundary condition S(+1/2)=0 is lost")
     fun = kw.get("fun")
     ctx.check("C16.1", isinstance(fun, FuncV) and fun.fi.name == "ode_system", fi, r.node, "FBG: integrates ode_system", "the checked system is the one integrated", "solve_ivp does not integrate ode_system")
